@@ -96,8 +96,9 @@ def create_parent_deletion_counter_diff(diff, path, strategies):
             # Only recurse if we didn't match a strategy here
             subdiff = create_parent_deletion_counter_diff(
                 d.diff, subpath, strategies)
-            p = op_patch(d.key, subdiff)
-            newdiff.append(p)
+            if subdiff:
+                p = op_patch(d.key, subdiff)
+                newdiff.append(p)
     return newdiff
 
 
